@@ -699,7 +699,7 @@ func (r *Report) Finish(c *Ctx, verifDir string, start time.Time, explanation st
 	}
 
 	// evidence
-	var samples []interface{}
+	samples := []interface{}{}
 	perRule := map[string]int{}
 	for _, o := range r.Obs {
 		if o.Nontrivial && perRule[o.Rule] < 2 {
